@@ -154,6 +154,17 @@ ConvFactor(A, B) ==
        ELSE [k |-> "ok", r |-> r, e |-> e, hasoff |-> TRUE,
              off |-> PSub(PMulMono(PConst(EffOff(A)), r, e), PConst(EffOff(B)))]
 
+(* ---------------- unit objects bound to another table ---------------- *)
+\* A unit object is a symbol read in ONE table: the quantity's registry, or another one in which the same spelling
+\* carries another value (a unit of a second registry; a Unit object made before its registry was re-calibrated).
+\* The rows of that second table are listed under `<symbol>@2`; everything above (prefix splitting, look-up,
+\* compounds, the affine rule) works on the row, whatever table it belongs to - as _get_conversion_factor works on
+\* the two unit objects' own base_value / base_offset / dimensions and never looks a spelling up again.
+TwinMark == "@2"
+IsTwinName(n) == Len(n) > 2 /\ SubSeq(n, Len(n) - 1, Len(n)) = TwinMark
+BareName(n) == IF IsTwinName(n) THEN SubSeq(n, 1, Len(n) - 2) ELSE n
+TableSuffix(n) == IF IsTwinName(n) THEN TwinMark ELSE ""
+
 (* ---------------- _check_em_conversion(unit, to_unit) + _em_conversion ---------------- *)
 EmDims == {EMTab[i].fromdim : i \in DOMAIN EMTab}
 NoEm == [k |-> "none", f |-> ROne, tag |-> 0, emu |-> NoUnit, ex |-> FALSE]
@@ -161,10 +172,11 @@ EmRoute(A, B) ==
   \* `unit == to_unit` needs equal dimensions, in which case no branch below fires either
   IF A.dim = B.dim \/ A.dim \notin EmDims THEN NoEm
   ELSE LET sp == IF A.atomic THEN SplitPrefix(A.str) ELSE <<"", A.str>>
-           hits == {i \in DOMAIN EMTab : EMTab[i].from = sp[2] /\ EMTab[i].fromdim = A.dim} IN
+           hits == {i \in DOMAIN EMTab : EMTab[i].from = BareName(sp[2]) /\ EMTab[i].fromdim = A.dim} IN
        IF hits = {} THEN NoEm
        ELSE LET info == EMTab[CHOOSE i \in hits : TRUE]
-                emu == ResolveAtom(sp[1] \o info.to) IN
+                \* Unit(prefix + counterpart, registry = the source unit's registry)
+                emu == ResolveAtom(sp[1] \o info.to \o TableSuffix(sp[2])) IN
             IF emu.ok /\ B.dim = emu.dim THEN [k |-> "em", f |-> info.f, tag |-> info.tag, emu |-> emu, ex |-> info.ex] ELSE NoEm
 \* new_units = factor * em_unit; conv = new_units.get_conversion_factor(to_units): no offsets on these units
 EmFactor(A, B) == LET em == EmRoute(A, B) IN
